@@ -203,7 +203,11 @@ func (e *Env) Run(id string, p *Package, seed uint64, maxLen int, compileOnly bo
 	defer os.Remove(bin)
 	ctx, cancel := context.WithTimeout(context.Background(), 60*time.Second)
 	defer cancel()
-	cmd := exec.CommandContext(ctx, bin, fmt.Sprint(seed), fmt.Sprint(maxLen), p.Sizes, fmt.Sprint(p.Steps))
+	dyn := ""
+	if p.Dyn {
+		dyn = "dyn"
+	}
+	cmd := exec.CommandContext(ctx, bin, fmt.Sprint(seed), fmt.Sprint(maxLen), p.Sizes, fmt.Sprint(p.Steps), dyn)
 	cmd.Env, cmd.Dir = e.env, dir
 	var stderr bytes.Buffer
 	cmd.Stderr = &stderr
